@@ -16,7 +16,10 @@ Variable vp : list (vertex P).
 Variable tr : @tracecfg json.
 
 Notation trb := (tracing tr).
-Notation pm := (pmc tr).
+(* the predicate_match stamp the specification uses for this search: when a trace callable is present it
+   is the machine's stamp; without one no trace event is delivered and the stamp is immaterial *)
+Variable pm : option jctx.
+Hypothesis pm_ok : tracing tr = true -> pm = pmc tr.
 
 (* the machine's predicate evaluator refines the specification's, on well-formed candidates *)
 Hypothesis ev_ok : forall p m, In (VPred p) vp -> wf m ->
@@ -26,6 +29,13 @@ Hypothesis ev_ok : forall p m, In (VPred p) vp -> wf m ->
 
 Notation step1 := (step jshape P ev src vp tr).
 Notation realizes := (realizes P ev src vp tr).
+
+Lemma trace_ev_pm m r i :
+  map abs_ev (trace_ev tr m r i) = proj trb [STrace (abs m) (option_map abs r) i pm].
+Proof.
+  rewrite trace_ev_abs. revert pm_ok. unfold proj. destruct (tracing tr); intros Hpm; [rewrite Hpm by reflexivity; reflexivity | reflexivity].
+Qed.
+
 Notation sem := (sem P sev).
 
 Definition ret_cur (m : jtm) (s : jstore) : option jtm := ocm (sget s (tid m)).
@@ -186,7 +196,7 @@ Proof.
               rseq (sevs ++ [STrace (abs m) None (S (tvi m)) pm], None) ([], None)).
   { unfold none_sem, rev1, rseq; simpl. rewrite app_nil_r. reflexivity. }
   rewrite E. eapply realizes_step; [eapply step_match_none; eauto| |].
-  - rewrite map_app, proj_app, Hev, trace_ev_abs. reflexivity.
+  - rewrite map_app, proj_app, Hev, trace_ev_pm. reflexivity.
   - apply realizes_nil. split; [split; [reflexivity | left; reflexivity]|]. split; [apply agree_refl | simpl; lia].
 Qed.
 
@@ -220,7 +230,7 @@ Proof.
     assert (E : none_sem (S (tvi m)) (abs m) = rseq ([STrace (abs m) None (S (tvi m)) pm], None) ([], None)) by reflexivity.
     rewrite E. eapply realizes_step.
     + rewrite Hz. eapply step_match_none; eauto.
-    + simpl. apply trace_ev_abs.
+    + simpl. apply trace_ev_pm.
     + apply realizes_nil. destruct (restore_ok m s0 s n Hptr Hag) as [Hr Ha].
       split; [exact Hr|]. split; [exact Ha | simpl; lia].
   - (* next item *)
@@ -236,7 +246,7 @@ Proof.
     simpl map. simpl rconcat. rewrite rseq_assoc. unfold go_sem at 1. rewrite rseq_assoc.
     eapply realizes_step.
     + rewrite Hz. eapply step_match_some; eauto.
-    + cbn [app]. rewrite trace_ev_abs. cbn [option_map]. unfold c. rewrite abs_child. reflexivity.
+    + cbn [app]. rewrite trace_ev_pm. cbn [option_map]. unfold c. rewrite abs_child. reflexivity.
     + eapply realizes_seq.
       * unfold c in IH. rewrite abs_child in IH. exact IH.
       * intros z' Hp. fold c in Hp.
@@ -372,7 +382,7 @@ Proof.
        assert (E : none_sem (S (tvi m)) (abs m) = rseq ([STrace (abs m) None (S (tvi m)) pm], None) ([], None)) by reflexivity;
        rewrite E; eapply realizes_step;
        [ rewrite Hz; eapply step_match_none; eauto
-       | simpl; apply trace_ev_abs
+       | simpl; apply trace_ev_pm
        | apply realizes_nil; destruct (restore_ok m s0 s n Hptr Hag) as [Hr Ha];
          split; [exact Hr|]; split; [exact Ha | simpl; lia] ]).
   (* next child *)
@@ -413,7 +423,7 @@ Proof.
     assert (Hfg : fresh g (alloc c s3 n1) (Pos.succ n1)) by (apply fresh_derived; [exact Hdg | rewrite Htc; unfold n1; lia]);
     eapply realizes_step;
     [ rewrite Hz; eapply step_match_some; eauto
-    | cbn [app]; rewrite trace_ev_abs; cbn [option_map];
+    | cbn [app]; rewrite trace_ev_pm; cbn [option_map];
       replace (abs g) with (abs c) by reflexivity; unfold c; rewrite abs_child; reflexivity
     | ];
     rewrite rseq_assoc;
@@ -461,7 +471,7 @@ Proof.
   all: assert (Htc : tid c = n) by apply tid_child.
   all: eapply realizes_step;
     [ rewrite Hz; eapply step_match_some; eauto
-    | cbn [app]; rewrite trace_ev_abs; cbn [option_map]; unfold c; rewrite abs_child; reflexivity
+    | cbn [app]; rewrite trace_ev_pm; cbn [option_map]; unfold c; rewrite abs_child; reflexivity
     | ].
   all: assert (Hback : forall r Post, realizes (mk (Some m) PMatch (alloc m s1 n) (Pos.succ n)) r Post ->
                          realizes (mk (ocm (sget (alloc m s1 n) (tid c))) (pc_of (oca (sget (alloc m s1 n) (tid c)))) (alloc m s1 n) (Pos.succ n)) r Post)
@@ -489,7 +499,7 @@ Proof.
   all: eapply realizes_step0; [apply step_report_inner; unfold c; rewrite tvx_child; exact Hnlf|].
   all: eapply realizes_step;
     [ eapply step_match_none; eauto
-    | cbn [app]; rewrite trace_ev_abs; cbn [option_map]; unfold c at 1 2; rewrite tvi_child, abs_child; reflexivity
+    | cbn [app]; rewrite trace_ev_pm; cbn [option_map]; unfold c at 1 2; rewrite tvi_child, abs_child; reflexivity
     | apply Hback; exact Hcont ].
 Qed.
 
@@ -538,7 +548,7 @@ Proof.
               rseq (sevs ++ [STrace (abs m) (Some (abs c)) (S (tvi m)) pm], None) (sem (S (tvi m)) rest pm (abs c))).
   { unfold go_sem, rev1. rewrite <- rseq_assoc. f_equal. }
   rewrite E. eapply realizes_step; [eapply step_match_some; eauto| |].
-  - rewrite map_app, proj_app, Hev, trace_ev_abs. reflexivity.
+  - rewrite map_app, proj_app, Hev, trace_ev_pm. reflexivity.
   - eapply realizes_conseq; [apply IH; auto; apply fresh_derived; assumption|].
     intros z' Hp. eapply post_single; eauto.
 Qed.
@@ -628,7 +638,7 @@ Proof.
         assert (Hfg : fresh g (alloc m (remember m its s) n) (Pos.succ n)) by (apply fresh_derived; assumption).
         rewrite (rec_children_unfold i (sem i rest pm) (match rest with [] => true | _ :: _ => false end) (abs m) (tdata m) its Hmem).
         rewrite rseq_assoc.
-        eapply realizes_step; [eapply step_match_some; eauto | cbn [app]; rewrite trace_ev_abs; reflexivity |].
+        eapply realizes_step; [eapply step_match_some; eauto | cbn [app]; rewrite trace_ev_pm; reflexivity |].
         eapply realizes_seq.
         { apply (IH' g _ _ Hwg eq_refl eq_refl Hfg). }
         intros z' Hp.
